@@ -171,6 +171,7 @@ extern "C" int sim_main(int argc, char** argv) {
         else if (o.kind == "mask") { mask_left = atoi(o.f[0].c_str()) + 1; hc::ev("M+"); mask.reset(new ygm::detail::interrupt_mask(world)); }
         else if (o.kind == "cb") { uint64_t cu = strtoull(o.f[0].c_str(), 0, 10); int dest = atoi(o.f[1].c_str()); long size = atol(o.f[2].c_str()); hc::ev("R " + o.f[0]);
           world.register_pre_barrier_callback([cu, dest, size, e]() { hc::ev("C " + std::to_string(cu)); bool was = g_in_cb; g_in_cb = true; issue_async(cu, dest, size, e, 1); g_in_cb = was; hc::ev("c " + std::to_string(cu)); }); }
+        else if (o.kind == "statsreset") { world.stats_reset(); }   // public API; must not influence delivery or termination
         else if (o.kind == "gate") {   // gate <kind> <who> <epoch> <count> <max_steps>: directed schedules (simmpi_gate)
           simmpi_gate(atoi(o.f[0].c_str()), atoi(o.f[1].c_str()), atoi(o.f[2].c_str()), atoi(o.f[3].c_str()), atoi(o.f[4].c_str()));
         }
